@@ -8,6 +8,8 @@ BUDGET = {"quick": 9000, "thorough": 150000}
 def explore(res, scale=1, seed=None):
     seed = res.seed if seed is None else seed
     colfam.run_family(res, "c07", BUDGET[res.tier] * scale, seed, builds=("default", "purego"))
+    # cuts inside a String value longer than the reader's 1 MiB growth step, at the end of a block (direct oracle)
+    colfam.run_family(res, "c07long", 4, seed, builds=("default",), sample=False)
     colfam.run_family(res, "c07msg", BUDGET[res.tier] * scale // 3, seed, builds=("default",), glue="Msg", gluemod="GlueMsg")
     res.extra["rule"] = ("every cut position (stride for encodings > 600 bytes in the quick tier) of column encodings of the catalogue "
                          "and of protocol messages at revisions around every feature threshold; compressed frames' cuts run under C05; "
